@@ -129,28 +129,46 @@ CELL_GETSTATE_SKELETON = [
 ]
 
 
+DICTKEY = {"empty": 0, "neighborhood": 1}
+
+
 def _cell_getstate():
-    """(has_dict, slots iterable text, emptied keys)"""
+    """(Gallina: has_dict, dict filter, slot filter; emptied keys) - both for `state = (self.__dict__, {...})` and for the
+    repaired form with filtering comprehensions"""
     fn = _norm(_func(CELL, "__getstate__", "Cell"))
     sts = _stmts(fn)
     if len(sts) < 2 or not isinstance(sts[0], ast.Assign) or ast.unparse(sts[0].targets[0]) != "v0" \
             or not (isinstance(sts[0].value, ast.Tuple) and len(sts[0].value.elts) == 2):
         raise T.Broken("Cell.__getstate__: expected `state = (<dict>, {<slots>})` first")
-    d, s = sts[0].value.elts
+    d, sl = sts[0].value.elts
+    dict_keeps = "fun _ : Z => true"
     if ast.unparse(d) == "self.__dict__":
         has_dict = True
     elif isinstance(d, ast.Constant) and d.value is None:
         has_dict = False
+    elif isinstance(d, ast.DictComp):
+        src, dict_keeps = _dictcomp_filter(d, DICTKEY, "Cell.__getstate__ (instance dict)")
+        if src != "self.__dict__":
+            raise T.Broken("Cell.__getstate__: the first state component filters something else than self.__dict__")
+        has_dict = True
     else:
-        raise T.Broken("Cell.__getstate__: first state component is neither self.__dict__ nor None")
-    if not (isinstance(s, ast.DictComp) and len(s.generators) == 1 and not s.generators[0].ifs
-            and isinstance(s.generators[0].target, ast.Name)
-            and ast.unparse(s.key) == s.generators[0].target.id
-            and ast.unparse(s.value) == f"getattr(self, {s.generators[0].target.id})"):
+        raise T.Broken("Cell.__getstate__: first state component is neither self.__dict__ (filtered) nor None")
+    if not (isinstance(sl, ast.DictComp) and len(sl.generators) == 1 and isinstance(sl.generators[0].target, ast.Name)
+            and ast.unparse(sl.key) == sl.generators[0].target.id
+            and ast.unparse(sl.value) == f"getattr(self, {sl.generators[0].target.id})"):
         raise T.Broken("Cell.__getstate__: second state component is not {k: getattr(self, k) for k in ...}")
-    it = ast.unparse(s.generators[0].iter)
+    it = ast.unparse(sl.generators[0].iter)
     if it != "self.__slots__":
         raise T.Broken(f"Cell.__getstate__ iterates over {it}, not over self.__slots__")
+    tr = Tr(SLOT)
+    try:
+        conds = [tr.bexpr(c) for c in sl.generators[0].ifs]
+    except pyexpr.Unsupported as e:
+        raise T.Broken(f"Cell.__getstate__: slot filter outside the translated subset: {e}") from None
+    body = "true"
+    for c in conds:
+        body = c if body == "true" else f"({body} && {c})"
+    slot_keeps = f"fun {sl.generators[0].target.id} : Z => {body}"
     emptied = []
     for st in sts[1:-1]:
         ok = (isinstance(st, ast.Assign) and isinstance(st.targets[0], ast.Subscript)
@@ -164,13 +182,14 @@ def _cell_getstate():
         emptied.append(SLOT[key])
     if ast.unparse(sts[-1]) != "return v0":
         raise T.Broken("Cell.__getstate__ does not end with `return state`")
-    return has_dict, emptied
+    return has_dict, dict_keeps, slot_keeps, emptied
 
 
 def c_cell_state():
-    has_dict, emptied = _cell_getstate()
+    has_dict, dict_keeps, slot_keeps, emptied = _cell_getstate()
     return ("Definition gen_c19_cell_state_has_dict : bool := " + ("true" if has_dict else "false") + ".\n"
-            "Definition gen_c19_cell_state_slots : list Z := gen_c19_cell_slots.\n"
+            f"Definition gen_c19_cell_dict_keeps : Z -> bool := {dict_keeps}.\n"
+            f"Definition gen_c19_cell_state_slots : list Z := filter ({slot_keeps}) gen_c19_cell_slots.\n"
             "Definition gen_c19_cell_emptied : list Z := [" + "; ".join(map(str, emptied)) + "].")
 
 
@@ -449,7 +468,8 @@ def c_agentset():
 CONSTRUCTS = [
     ("c19_cell_slots", CELL, c_cell_slots, lambda: "Definition gen_c19_cell_slots : list Z := []."),
     ("c19_cell_getstate", CELL, c_cell_state,
-     lambda: "Definition gen_c19_cell_state_has_dict : bool := false.\nDefinition gen_c19_cell_state_slots : list Z := [].\n"
+     lambda: "Definition gen_c19_cell_state_has_dict : bool := false.\nDefinition gen_c19_cell_dict_keeps : Z -> bool := fun _ => false.\n"
+             "Definition gen_c19_cell_state_slots : list Z := [].\n"
              "Definition gen_c19_cell_emptied : list Z := []."),
     ("c19_cell_add_remove", CELL, c_cell_add_remove, lambda: "Definition gen_c19_cell_add_remove_skeleton_ok : bool := false."),
     ("c19_gridcell_pickle", GRID, c_gridcell_pickle,
